@@ -585,6 +585,16 @@ fn end_to_end(env: Env, lines: &[&str]) -> Option<Violation> {
         text.push_str(l);
         text.push('\n');
     }
+    // a second [General] block after the timing points changes the final mode, not how the lines above were read
+    if lines.len() % 2 == 1 {
+        let later = match env.mode {
+            GameMode::Osu => 3,
+            GameMode::Taiko => 0,
+            GameMode::Catch => 1,
+            GameMode::Mania => 2,
+        };
+        text.push_str(&format!("\n[General]\nMode: {later}\n"));
+    }
     let accepted: Vec<Parsed> = lines.iter().filter_map(|l| ref_parse(l, env)).collect();
     let want = batch(&accepted);
     let _g = crate::engine::watch::bytes_guard(text.as_bytes());
